@@ -247,6 +247,10 @@ type c10Stack struct {
 
 	// anon makes the profile database not recognise the current request.
 	anon bool
+
+	// onLookup, if not nil, runs at the start of every profile-database
+	// lookup of the current request (the device finder's slow step).
+	onLookup func()
 }
 
 var (
@@ -408,6 +412,9 @@ func c10NewStackGeo(conf c10Config, prof *agd.Profile, dev *agd.Device, realGeo 
 	notFound := func() (*agd.Profile, *agd.Device, error) { return nil, nil, profiledb.ErrDeviceNotFound }
 	db := agdtest.NewProfileDB()
 	db.OnProfileByHumanID = func(_ context.Context, id agd.ProfileID, _ agd.HumanIDLower) (*agd.Profile, *agd.Device, error) {
+		if h := s.onLookup; h != nil {
+			h()
+		}
 		if s.prof == nil || s.anon || id != c10ProfID {
 			return nil, nil, profiledb.ErrProfileNotFound
 		}
@@ -434,6 +441,9 @@ func c10NewStackGeo(conf c10Config, prof *agd.Profile, dev *agd.Device, realGeo 
 		}, nil
 	}
 	db.OnProfileByLinkedIP = func(_ context.Context, ip netip.Addr) (*agd.Profile, *agd.Device, error) {
+		if h := s.onLookup; h != nil {
+			h()
+		}
 		if s.prof == nil || s.anon {
 			return notFound()
 		} else if conf.DB == "error" {
@@ -443,6 +453,9 @@ func c10NewStackGeo(conf c10Config, prof *agd.Profile, dev *agd.Device, realGeo 
 		return s.prof, s.dev, nil
 	}
 	db.OnProfileByDeviceID = func(_ context.Context, id agd.DeviceID) (*agd.Profile, *agd.Device, error) {
+		if h := s.onLookup; h != nil {
+			h()
+		}
 		if s.prof == nil || s.anon || id != c10DevID {
 			return notFound()
 		} else if conf.DB == "error" {
@@ -654,7 +667,16 @@ type c10Query struct {
 
 	// Anonymous makes the request carry no device identification.
 	Anonymous bool `json:"anonymous,omitempty"`
+
+	// Ctx is the state of the request's context: "" live; "cancelled" and
+	// "expired" (deadline in the past) on entry; "cancel-in-lookup" (cancelled
+	// while the device finder looks the profile up, which still returns it);
+	// "expire-in-lookup" (the deadline passes during that lookup).
+	Ctx string `json:"ctx,omitempty"`
 }
+
+// c10CtxKinds are the dead-context kinds.
+var c10CtxKinds = []string{"cancelled", "expired", "cancel-in-lookup", "expire-in-lookup"}
 
 // Malformed EDNS Client Subnet options (values of c10Query.ECS).
 const (
@@ -729,6 +751,31 @@ func (s *c10Stack) serve(q c10Query, id uint16) (o *c10Obs) {
 	ctx := dnsserver.ContextWithRequestInfo(context.Background(), sri)
 	ctx = dnsserver.ContextWithServerInfo(ctx, si)
 	ctx = agd.WithRequestID(ctx, agd.RequestID{})
+
+	cancel := context.CancelFunc(func() {})
+	switch q.Ctx {
+	case "":
+	case "cancelled":
+		ctx, cancel = context.WithCancel(ctx)
+		cancel()
+	case "expired":
+		ctx, cancel = context.WithDeadline(ctx, time.Now().Add(-time.Second))
+	case "cancel-in-lookup":
+		ctx, cancel = context.WithCancel(ctx)
+		s.onLookup = cancel
+	case "expire-in-lookup":
+		// No wall-clock oracle: the lookup simply does not return before the
+		// deadline has passed.
+		ctx, cancel = context.WithTimeout(ctx, 300*time.Microsecond)
+		done := ctx.Done()
+		s.onLookup = func() { <-done }
+	default:
+		vrt.Fatalf("bad context kind %q", q.Ctx)
+	}
+	defer func() {
+		cancel()
+		s.onLookup = nil
+	}()
 
 	*s.rec = c10Rec{}
 	s.anon = q.Anonymous
